@@ -1,10 +1,13 @@
 ----------------------------- MODULE Trace_C16s -----------------------------
 (* C16, order independence of queries: a sweep event carries the number of cells of one entry point whose outcome differed between   *)
-(* three passes over the same grid in different orders (and an immediate repetition).  Purity demands that number to be zero.        *)
+(* three passes over the same grid in different orders (and an immediate repetition), and a last pass after every other entry point  *)
+(* has been swept; plus whether the digest of the library's tables is the same before and after.  Purity demands zero / unchanged.    *)
 EXTENDS XrlChunks
 BadOf(i, ev) == IF ev.k = "sweep" /\ ev.ndiff # 0
                 THEN {[prop |-> "C16", line |-> i, fn |-> ev.fn, why |-> "the outcome of a query depends on the calls made before it (order of the sweep / immediate repetition)",
                        cells |-> ev.cells, ndiff |-> ev.ndiff, first |-> ev.first]}
+                ELSE IF ev.k = "sweep" /\ ev.tables # 1
+                THEN {[prop |-> "C16", line |-> i, fn |-> ev.fn, why |-> "a sweep of queries over this entry point changed the library's tables", cells |-> ev.cells]}
                 ELSE {}
 Judged == JudgedWith(BadOf)
 =============================================================================
